@@ -33,7 +33,7 @@ type exception struct {
 func c18Exceptions() []exception {
 	always := func(*Ctx) (bool, string) { return true, "" }
 	return []exception{
-		{"engine.aggregateRows", ".Vals[colIdx].(int64)", "aggregate accumulators: projectColumns seeds every COUNT/AVG column of every row with an int64 and aggregateRows stores int64 back", sideAccumulators},
+		{"engine.aggregateRows", "].(int64)", "aggregate accumulators: projectColumns seeds every COUNT/AVG column of every row with an int64 and aggregateRows stores int64 back", sideAccumulators},
 		{"engine.EvaluateInsert", "QueryExpression.(sql.TableValueConstructor)", "the parser's Insert production and csvimport store a TableValueConstructor before the statement can be evaluated", sideInsertSource},
 		{"engine.projectColumns", "selectList[0]", "Parser.SelectList never returns an empty list on success", sideSelectListNonEmpty},
 		{"engine.EvaluateCreateTable", "panic", "every table element the parser appends has one of the four column types assigned", sideColumnTypeAssigned},
@@ -275,13 +275,13 @@ func panicBehindProvenAssertion(f *Func, g *Graph, ts *tsEngine, loc Loc) bool {
 	found := false
 	inspectBody(f.Decl.Body, func(x ast.Node) bool {
 		ifs, ok := x.(*ast.IfStmt)
-		if !ok || exprKey(ifs.Cond) != "!ok" || !(ifs.Body.Pos() <= g.Node(loc).Pos() && g.Node(loc).End() <= ifs.Body.End()) {
+		if !ok || !strings.HasPrefix(exprKey(ifs.Cond), "!") || !(ifs.Body.Pos() <= g.Node(loc).Pos() && g.Node(loc).End() <= ifs.Body.End()) {
 			return true
 		}
 		// the nearest preceding `v, ok := X.(T)`
 		var best *ast.AssignStmt
 		ast.Inspect(f.Decl.Body, func(y ast.Node) bool {
-			if as, isAs := y.(*ast.AssignStmt); isAs && as.End() <= ifs.Pos() && len(as.Lhs) == 2 && len(as.Rhs) == 1 && exprKey(as.Lhs[1]) == "ok" {
+			if as, isAs := y.(*ast.AssignStmt); isAs && as.End() <= ifs.Pos() && len(as.Lhs) == 2 && len(as.Rhs) == 1 && "!"+exprKey(as.Lhs[1]) == exprKey(ifs.Cond) {
 				if best == nil || as.Pos() > best.Pos() {
 					best = as
 				}
@@ -327,7 +327,7 @@ func sideAccumulators(c *Ctx) (bool, string) {
 		}
 		ast.Inspect(cc, func(y ast.Node) bool {
 			if call, ok := y.(*ast.CallExpr); ok {
-				if id, ok := call.Fun.(*ast.Ident); ok && id.Name == "append" && len(call.Args) == 2 && exprKey(call.Args[0]) == "newVals" {
+				if id, ok := call.Fun.(*ast.Ident); ok && id.Name == "append" && len(call.Args) == 2 {
 					seen++
 					if t := f.TypeOf(call.Args[1]); t == nil || typeName(t) != "int64" {
 						okAll = false
@@ -345,7 +345,7 @@ func sideAccumulators(c *Ctx) (bool, string) {
 	af := c.W.F("engine.aggregateRows")
 	if af != nil {
 		inspectBody(af.Decl.Body, func(x ast.Node) bool {
-			if as, ok := x.(*ast.AssignStmt); ok && len(as.Lhs) == 1 && strings.HasSuffix(exprKey(as.Lhs[0]), ".Vals[colIdx]") {
+			if as, ok := x.(*ast.AssignStmt); ok && len(as.Lhs) == 1 && strings.Contains(exprKey(as.Lhs[0]), ".Vals[") && strings.HasSuffix(exprKey(as.Lhs[0]), "]") {
 				if t := af.TypeOf(as.Rhs[0]); t == nil || typeName(t) != "int64" {
 					okAll = false
 					why = "aggregateRows stores a " + typeName(t) + " into an accumulator column"
@@ -476,8 +476,12 @@ func sideColumnTypeAssigned(c *Ctx) (bool, string) {
 	g := f.Graph()
 	var app ast.Node
 	inspectBody(f.Decl.Body, func(x ast.Node) bool {
-		if as, ok := x.(*ast.AssignStmt); ok && exprKey(as.Lhs[0]) == "ret" {
-			app = as
+		if as, ok := x.(*ast.AssignStmt); ok && len(as.Rhs) == 1 {
+			if call, isCall := ast.Unparen(as.Rhs[0]).(*ast.CallExpr); isCall {
+				if id, isId := call.Fun.(*ast.Ident); isId && id.Name == "append" {
+					app = as
+				}
+			}
 		}
 		return true
 	})
@@ -518,7 +522,10 @@ func sideRowValueTypes(c *Ctx) (bool, string) {
 	okT := true
 	why := ""
 	inspectBody(f.Decl.Body, func(x ast.Node) bool {
-		if as, ok := x.(*ast.AssignStmt); ok && len(as.Lhs) == 1 && exprKey(as.Lhs[0]) == "v" {
+		if as, ok := x.(*ast.AssignStmt); ok && len(as.Lhs) == 1 && len(as.Rhs) == 1 && isInterface(f.TypeOf(as.Lhs[0])) && as.Tok == token.ASSIGN {
+			if _, isId := as.Lhs[0].(*ast.Ident); !isId {
+				return true
+			}
 			switch typeName(f.TypeOf(as.Rhs[0])) {
 			case "int64", "string", "bool":
 			default:
@@ -750,7 +757,7 @@ func c18NoService(c *Ctx, rule string) {
 		}
 		uses := false
 		for _, a := range call.Args {
-			if exprKey(a) == "s.RelationService" {
+			if exprKey(a) == recvName(f)+".RelationService" {
 				uses = true
 			}
 		}
@@ -760,7 +767,7 @@ func c18NoService(c *Ctx, rule string) {
 		n++
 		key := f.Name + "|uses-service|" + exprKey(call.Fun)
 		loc, _ := g.Locate(call)
-		ok = dominatedByReturnGuard(f, g, loc, func(cond ast.Expr) bool { return exprKey(cond) == `s.CurDB==""` })
+		ok = dominatedByReturnGuard(f, g, loc, func(cond ast.Expr) bool { return exprKey(cond) == recvName(f)+`.CurDB==""` })
 		c.Check(ok, rule, key, call.Pos(), "dominated by the no-database return", "the statement is evaluated without the `please select a database` guard: with no USE (or after a failed one) the nil service is dereferenced")
 		return true
 	})
